@@ -79,7 +79,6 @@ theorem tkProcessWorkflowEvent_raises (i req) : Raises (tkProcessWorkflowEvent i
   constructor
   intro c e s' h
   unfold tkProcessWorkflowEvent at h
-  dsimp only at h
   repeat' split at h
   all_goals (cases h <;> (intro hc; cases hc))
 
